@@ -401,8 +401,14 @@ Definition num_parts (t : list Z) : bool * Z * Z :=
 
 Definition num_value (t : list Z) : Z :=
   let '(neg, dg, ex) := num_parts t in
-  (* exponents beyond +-400 behave as +-400 for a digit string of < 300 digits; clamp to keep it cheap *)
-  let mag := if 0 <=? ex then q_to_bits (dg * 10 ^ ex) 1 else q_to_bits dg (10 ^ (- ex)) in
+  (* shortcuts that keep huge exponents cheap: with 1 <= dg < 2^u,
+     ex > 400 gives a value >= 10^401 (infinity), and ex < -(400+u) a value
+     below 10^u * 10^(-400-u) = 10^-400 (zero) *)
+  let u := Z.log2 dg + 1 in
+  let mag := if dg =? 0 then 0
+             else if 400 <? ex then inf_bits
+             else if ex <? - (400 + u) then 0
+             else if 0 <=? ex then q_to_bits (dg * 10 ^ ex) 1 else q_to_bits dg (10 ^ (- ex)) in
   if neg then mag + 2 ^ 63 else mag.
 
 (* 15.12.2: the object built for a JSONObject keeps, for a duplicated key,
